@@ -116,7 +116,21 @@ def appended_values(fi):
     return out
 
 
+def criteria_shared(prog, run):
+    """single-setup SSI classes: the pole tables computed by SSI_poles reach the result table of the same kind, every hard criterion is
+    handed to the parameter that implements it and is applied as a boolean selection (rules shared with C09) - a mis-bound limit or a
+    mask used as an index removes true poles at order 2m"""
+    from . import C09
+    from .. import maskkind
+    run.rule("R-criteria", "SSIdat / SSIcov run(): result tables = tables of the same kind from SSI_poles; hc limits bound to the parameters of their names; masks applied as boolean selections", 10)
+    cls_ = [("algorithms.ssi.SSIdat", "dat", False), ("algorithms.ssi.SSIcov", "cov_mm", False)]
+    C09.slot_provenance(prog, run, "R-criteria", classes=cls_)
+    C09.classes_rules(prog, run, cls_, {"bind": "R-criteria"})
+    maskkind.obligations(prog, run, "R-criteria", ("pyoma2.algorithms.ssi",))
+
+
 def check(prog, run):
+    criteria_shared(prog, run)
     run.rule("R-shift", "shift-invariance solve: up = O[:rows-w], down = O[w:] of one matrix, one shift w = channel count; A = pinv(up).down or inv(R).Q^T.down with QR of `up`; C = O[:w]", 15)
     run.rule("R-order-slot", "one truncation index per order; SSI_poles writes table column ii from AA[ii], CC[ii]", 6)
     run.rule("R-map", "ssi.ac2mp: lambda_c = log(lambda_d)/dt, fn = |lambda_c|/(2 pi), xi = -Re(lambda_c)/|lambda_c|", 3)
